@@ -136,6 +136,9 @@ type MConn struct {
 	Pid   uint32
 	Ended bool
 
+	LastAct time.Time // when the server last consumed a message of this connection (idle timer)
+	Stalled bool      // the client stopped reading
+
 	PendingPose map[uint32]*Step // eid -> last unprocessed update
 	PendingComp map[CompKey]*Step
 
